@@ -34,4 +34,11 @@ CK5 == << [t |-> "u", key |-> <<2, 1>>], [t |-> "d", f |-> 2, op |-> "gt", n |->
 CK6 == << [t |-> "d", f |-> 1, op |-> "lt", n |-> 0] >>
 CK7 == << [t |-> "d", f |-> 2, op |-> "ge", n |-> 3], [t |-> "u", key |-> <<1>>] >>
 CK8 == << [t |-> "d", f |-> 1, op |-> "eq", n |-> 0], [t |-> "d", f |-> 2, op |-> "gt", n |-> 1] >>
+\* ---- C20: recording fields and checks
+\* checks: an accepting one, one that vetoes rows whose first value is 2, one that fails at the end
+PChecks == << [t |-> "p", veto |-> 0, endFail |-> FALSE], [t |-> "p", veto |-> 2, endFail |-> FALSE],
+              [t |-> "p", veto |-> 0, endFail |-> TRUE] >>
+PChecks2 == << [t |-> "p", veto |-> 2, endFail |-> TRUE], [t |-> "p", veto |-> 1, endFail |-> FALSE] >>
+Limits3 == {<<>>, <<1>>, <<2>>}
+NoChecks == <<>>
 =============================================================================
